@@ -1234,7 +1234,9 @@ def task_project_wiring(scratch, tier, seed, logdir):
                 seen.add("done")
                 r = show(p.ret)
                 if not re.fullmatch(r"ctor:Ok\(spectrum::Spectrum::<Counts>::into_state_unchecked::<S>\(.*\)\)", r):
-                    ob.fail("violation", "the result is not Ok(the accumulated spectrum): " + r[:160])
+                    # e.g. an early return for the identity case: whether its guard is right is decided by
+                    # the Kani harnesses project_target_* / project_structure_*, not here
+                    ob.fail("inconclusive", "a return of an unrecognised form (expected Ok(the accumulated spectrum)): " + r[:160])
             elif p.end == "loopback":
                 seen.add("step")
                 cells = [show(v) for v in p.state.env.values() if "add_unchecked!mut1" in show(v)]
